@@ -170,6 +170,62 @@ theorem C09_system_full_is_sum (c : SysCfg) (hl : LinearFE c.fe) (hn : c.ant.noi
       (t, (sigs.map (fun s => interp0 (c.fe (withTimes s (leadInTimes c.leadIn ts))) t)).sum)) :=
   sysFull_eq c hl hn m sigs ts hts hs
 
+/-- for EVERY front end, additive or not (clipping amplifiers, envelope circuits, …): the system waveform
+over any well-formed window is the front end applied to the antenna's full waveform — noise plus the sum
+of all received signals — on the lead-in grid, read off on the window.  This is what the code does; the
+"sum of the signals, each passed through the front end" of `C09_system_full_is_sum` follows from it only
+for additive front ends. -/
+theorem C09_system_full_is_front_end_of_sum (c : SysCfg) (m : Option Nat) (sigs : List Wave)
+    (ts : List Time) (hts : WF ts) (hs : ∀ s ∈ sigs, (timesOf s).Pairwise (· < ·)) :
+    sysFull c m sigs ts = withTimes (c.fe ((leadInTimes c.leadIn ts).map
+      (fun t => (t, noiseVal c.ant m t + (sigs.map (fun s => interp0 s t)).sum)))) ts :=
+  sysFull_unconditional c m sigs ts hts hs
+
+/-- why `LinearFE` is needed in `C09_system_full_is_sum`: with a clipping front end (as shipped for ARA
+and ARIANNA) and two overlapping signals of 0.8 and 0.7 the system waveform is the clipped sum, 1, whereas
+the sum of the separately processed signals (= the sum of `system.signals`) is 1.5.  The electronics act
+on the total voltage; the worded clause cannot hold for a non-additive front end. -/
+theorem C09_system_sum_fails_for_clipping :
+    let c : SysCfg := ⟨⟨false, alwaysTrig, detNoise⟩, 0, clipFe, alwaysTrig⟩
+    let s1 : Wave := [(0, 4/5), (1, 4/5), (2, 4/5), (3, 4/5)]
+    let s2 : Wave := [(0, 7/10), (1, 7/10), (2, 7/10), (3, 7/10)]
+    let ts : List Time := [0, 1, 2, 3]
+    sysFull c none [s1, s2] ts = [(0, 1), (1, 1), (2, 1), (3, 1)] ∧
+    ts.map (fun t => (t, ([s1, s2].map (fun s => interp0 (c.fe (withTimes s (leadInTimes c.leadIn ts))) t)).sum))
+      = [(0, 3/2), (1, 3/2), (2, 3/2), (3, 3/2)] ∧
+    WF ts ∧ ¬ (∀ a b : Wave, timesOf a = timesOf b → clipFe (addW a b) = addW (clipFe a) (clipFe b)) := by
+  refine ⟨by decide +kernel, by decide +kernel, by decide +kernel, ?_⟩
+  intro h
+  have := h [(0, 4/5)] [(0, 7/10)] rfl
+  revert this
+  decide +kernel
+
+/-! ## what the implementation rejects -/
+
+/-- the hypotheses of the theorems above lie inside what the code accepts: a window of at least two
+strictly increasing samples and non-empty, time-ordered signals never make `full_waveform` raise; uniform
+grids with a non-negative lead-in time never make `_calculate_lead_in_times` raise. -/
+theorem C09_hypotheses_are_accepted (sigs : List Wave) (ts : List Time) (hts : WF ts)
+    (h : ∀ s ∈ sigs, s ≠ [] ∧ (timesOf s).Pairwise (· < ·))
+    (a dt lead : Rat) (L : Nat) (hL : 2 ≤ L) (hdt : 0 < dt) (hlead : 0 ≤ lead) :
+    fullWaveRejects sigs ts = false ∧ leadInRejects lead (uniformGrid a dt L) = false :=
+  ⟨wf_not_rejected sigs ts hts h, leadIn_uniform_not_rejected a dt lead L hL hdt hlead⟩
+
+/-- and outside them the code raises (each case observed on the real code by the harness): a window of
+one sample or none; an empty received signal; repeated first times (division by zero); a window or the
+longest signal running backwards; for `all_waveforms` already one received one-sample signal; for the
+lead-in grid a negative lead-in time of more than one sample or a first gap larger than the rest. -/
+theorem C09_rejected_inputs :
+    fullWaveRejects [] [1] = true ∧ fullWaveRejects [] [] = true ∧
+    fullWaveRejects [[]] [0, 1, 2] = true ∧ fullWaveRejects [] [1, 1, 2] = true ∧
+    fullWaveRejects [[(0, 1), (1, 2), (2, 3)]] [2, 1, 0] = true ∧
+    fullWaveRejects [[(2, 1), (1, 2), (0, 3)]] [0, 1, 2] = true ∧
+    fullWaveRejects [[(0, 1), (1, 2), (2, 3)], [(1, 5)]] [0, 1, 2] = false ∧
+    allWavesRejects [[(0, 1), (1, 2), (2, 3)], [(1, 5)]] = true ∧
+    leadInRejects (5/2) [0, 2, 5/2, 3, 7/2, 4] = true ∧ leadInRejects (-5/2) [0, 1, 2, 3] = true ∧
+    leadInRejects (-1) [0, 1, 2, 3] = false ∧ leadInRejects 0 [1] = true := by
+  decide +kernel
+
 /-- the lead-in grid of a uniform grid (`L ≥ 2` points from `a`, spacing `dt`) keeps the spacing,
 ends with the grid itself, and has `n = ⌊lead/dt⌋ + 1 > lead/dt` extra points in front. -/
 theorem C09_lead_in_grid (a dt lead : Rat) (L : Nat) (hL : 2 ≤ L) (hdt : 0 < dt) (hlead : 0 ≤ lead) :
